@@ -814,11 +814,11 @@ fn do_to_dot<W: Write>(
                     let label = {
                         let mut buffer = String::new();
                         diagnostic_display_input(&mut buffer, input)?;
-                        buffer.replace('\"', "\\\"")
+                        crate::regex::make_dot_string_constant(&buffer)
                     };
                     writeln!(
                         output,
-                        "{indentation}_{identifiers_prefix}{} -> _{identifiers_prefix}{} [label=\"{}\"];",
+                        "{indentation}_{identifiers_prefix}{} -> _{identifiers_prefix}{} [label={}];",
                         from + array_start,
                         to + array_start,
                         label
